@@ -1,15 +1,21 @@
 package props
 
 import (
+	"fmt"
 	"math/big"
 	"strconv"
 	"strings"
 
+	sdkmath "cosmossdk.io/math"
 	abci "github.com/cometbft/cometbft/abci/types"
 	sdk "github.com/cosmos/cosmos-sdk/types"
+	authtypes "github.com/cosmos/cosmos-sdk/x/auth/types"
+	govtypes "github.com/cosmos/cosmos-sdk/x/gov/types"
 	"github.com/ethereum/go-ethereum/common"
 	"github.com/ethereum/go-ethereum/common/hexutil"
 	ethtypes "github.com/ethereum/go-ethereum/core/types"
+
+	feemarkettypes "github.com/EscanBE/evermint/v12/x/feemarket/types"
 
 	"verif/harness/chain"
 )
@@ -89,6 +95,8 @@ type blockRecord struct {
 	BaseFee *big.Int // base fee in force during this block
 	Floor   *big.Int // max(base fee, integer part of the global minimum gas price) during this block
 	End     interface{}
+	PreGov  interface{} // snapshot before a governance update enacted in this block (nil without one)
+	GovErr  error
 	Hash    []byte // header hash to hand to FinalizeBlock (nil = the driver's default)
 }
 
@@ -139,9 +147,17 @@ func execBlock(c *chain.Chain, rec blockRecord, dt int64, proposer int, txs [][]
 		s    interface{}
 	}
 	var obs []obsRec
-	if snap != nil {
+	if snap != nil || rec.Plan.GovFee != nil {
 		c.SetObserver(func(o chain.Obs) {
-			obs = append(obs, obsRec{o.Kind, o.TxIndex, snap(o.Ctx)})
+			if o.Kind == "end" && rec.Plan.GovFee != nil {
+				if snap != nil {
+					rec.PreGov = snap(o.Ctx)
+				}
+				rec.GovErr = enactGovFee(c, o.Ctx, *rec.Plan.GovFee)
+			}
+			if snap != nil {
+				obs = append(obs, obsRec{o.Kind, o.TxIndex, snap(o.Ctx)})
+			}
 		})
 	} else {
 		c.SetObserver(nil)
@@ -211,3 +227,30 @@ func containsAny(s string, subs ...string) bool {
 }
 
 func addrHex(a common.Address) string { return strings.ToLower(a.Hex()) }
+
+// enactGovFee runs the fee-market MsgUpdateParams with the governance authority on the block's context.
+func enactGovFee(c *chain.Chain, ctx sdk.Context, g GovFeePlan) (err error) {
+	defer func() {
+		if r := recover(); r != nil {
+			err = fmt.Errorf("panic: %v", r)
+		}
+	}()
+	bf, ok := sdkmath.NewIntFromString(g.BaseFee)
+	if !ok {
+		return fmt.Errorf("bad base fee")
+	}
+	mp, perr := sdkmath.LegacyNewDecFromStr(g.MinGasPrice)
+	if perr != nil {
+		return perr
+	}
+	msg := &feemarkettypes.MsgUpdateParams{Authority: authtypes.NewModuleAddress(govtypes.ModuleName).String(), Params: feemarkettypes.Params{BaseFee: bf, MinGasPrice: mp}}
+	if verr := msg.Params.Validate(); verr != nil {
+		return verr
+	}
+	cctx, write := ctx.CacheContext()
+	if _, err = c.App.FeeMarketKeeper.UpdateParams(cctx, msg); err != nil {
+		return err
+	}
+	write()
+	return nil
+}
